@@ -1,5 +1,6 @@
 """C20 — concurrent evaluation: a Pending child never stops the scan; the scan covers every child;
 all children start armed."""
+from ..facts import base
 from .. import scan, families
 from ..families import short, ctor_fields, loop_domain
 from ..sites import is_agg
@@ -7,8 +8,8 @@ from . import common, prims
 
 PROPERTY = "C20"
 LEVEL = "other"
-CONFIGS_QUICK = ["std", "alloc"]
-CONFIGS_THOROUGH = ["std", "alloc", "core"]
+CONFIGS_QUICK = ["std", "alloc", "std-rel"]
+CONFIGS_THOROUGH = ["std", "alloc", "core", "std-rel", "alloc-rel", "core-rel"]
 EXPLANATION = (
     "Path and coverage rules on the MIR of every scan-loop poll body (join, try_join, race, race_ok, merge, zip, groups; all "
     "tuple arities, array, Vec; three feature configurations): (CONT) from the Pending edge of every child poll every path "
@@ -47,7 +48,7 @@ def run(ctx):
                 rule_arm0(ctx, M, u)
         from . import c01
         c01.live_premises(ctx, M, units, "C20.LIVE")
-        if cfg != "core":
+        if base(cfg) != "core":
             from . import c11, c12, grouplike
             with ctx.renamed({"C11.*": "C20.COVER", "C12.*": "C20.COVER"}):
                 for gname in ("future_group", "stream_group"):
@@ -62,13 +63,13 @@ def run(ctx):
                     c12.rule_drain(ctx, M, gu)
                     c12.rule_item(ctx, M, gu)
         prims.check_indexer(ctx, M, "C20.ROT")
-        if cfg == "std":
+        if base(cfg) == "std":
             prims.check_bits(ctx, M, "C20.BITS0")
         else:
             prims.check_nostd(ctx, M, "C20.BITS0")
-        ctx.floor("C20.CONT", cfg, 6 * 78 + (6 if cfg == "core" else 14))
-        ctx.floor("C20.COVER", cfg, 6 * 12 + (6 if cfg == "core" else 14))
-        ctx.floor("C20.ARM0", cfg, 6 * 12 + (6 if cfg == "core" else 12))
+        ctx.floor("C20.CONT", cfg, 6 * 78 + (6 if base(cfg) == "core" else 14))
+        ctx.floor("C20.COVER", cfg, 6 * 12 + (6 if base(cfg) == "core" else 14))
+        ctx.floor("C20.ARM0", cfg, 6 * 12 + (6 if base(cfg) == "core" else 12))
     return {}
 
 
